@@ -34,6 +34,8 @@ ARGS = ["0", "1", "2", "-1", "-2", "3", "10", "100", "1/2", "-1/2", "7/2", "-7/2
         "pi", "pi/2", "e", "8", "1000", "1e22", "0.49999999999999994", "4503599627370497.5",
         "pi*1e308", "1/1.5e-200/1.5e-200", "2.5*1e308", "1e308/0.1", "(0-2.5)*1e308",
         # lazy values that are short products at a large offset (what is left after big factorials cancel)
+        # ordinary VALUES whose exact form has enormous numerator and denominator (the argument is a double; its components are not)
+        "(10^700+1)/10^700", "2+1/10^640", "9/4 - 1/10^1000",
         "100000!/99998!", "1000001!/999999!", "3000000!/2999999!", "C(3000,2)", "20!/18!", "100001!/100000!/100000"]
 QARGS = ["90 deg", "180 deg", "45 deg", "2 rad", "-1 rad", "4 m", "-4 m", "(7/2) m", "-7/2 s", "2.5 kg", "0 m", "9 m^2", "1e3 m", "30 deg", "1 dozen"]
 BASES = ["-2", "0", "1/2", "1", "2", "e", "10", "0.9", "3", "1.0", "1/10",
